@@ -1,0 +1,149 @@
+//go:build verif
+
+package simpledb
+
+import (
+	"path/filepath"
+
+	"github.com/thomasjungblut/go-sstables/memstore"
+	"github.com/thomasjungblut/go-sstables/simpledb/proto"
+	"github.com/thomasjungblut/go-sstables/sstables"
+)
+
+// Verification hooks (build tag "verif"). Every hook is called at a linearization point, i.e. after the state
+// change and while the lock that protects it is still held; the sink assigns the sequence number inside the call.
+
+// VerifSink receives one event per hook call. Installed by the verification harness, nil otherwise.
+var VerifSink func(name string, fields map[string]any)
+
+// VerifGateFn is called at named scheduling points; it may block (scheduler for generated interleavings).
+var VerifGateFn func(point string)
+
+type VerifTable struct {
+	Path       string
+	NumRecords uint64
+	NullValues uint64
+	TotalBytes uint64
+}
+
+func verifEmit(name string, fields map[string]any) {
+	if s := VerifSink; s != nil {
+		s(name, fields)
+	}
+}
+
+func verifTablesOf(readers []sstables.SSTableReaderI) []VerifTable {
+	out := make([]VerifTable, 0, len(readers))
+	for _, r := range readers {
+		md := r.MetaData()
+		out = append(out, VerifTable{Path: filepath.Base(r.BasePath()), NumRecords: md.NumRecords, NullValues: md.NullValues, TotalBytes: md.TotalBytes})
+	}
+	return out
+}
+
+func verifPut(key, value []byte) { verifEmit("put", map[string]any{"k": key, "v": value}) }
+func verifDel(key []byte)        { verifEmit("del", map[string]any{"k": key}) }
+
+func verifGate(point string) {
+	if g := VerifGateFn; g != nil {
+		g(point)
+	}
+}
+
+func verifWalRotated(walPath string) {
+	verifEmit("rotwal", map[string]any{"wal": filepath.Base(walPath)})
+}
+
+func verifSwap(store memstore.MemStoreI) { verifEmit("rotate", map[string]any{"n": store.Size()}) }
+
+func verifHandoff() { verifEmit("handoff", map[string]any{}) }
+
+func verifFlush(stage string, store memstore.MemStoreI, path string) {
+	verifEmit("flush."+stage, map[string]any{"n": store.Size(), "path": filepath.Base(path)})
+}
+
+// called inside addReader with the manager lock held, after the list was replaced
+func verifInstall(s *SSTableManager, reader sstables.SSTableReaderI) {
+	verifEmit("install", map[string]any{"table": verifTablesOf([]sstables.SSTableReaderI{reader})[0], "tables": verifTablesOf(s.allSSTableReaders)})
+}
+
+func verifBaseNames(paths []string) []string {
+	sel := make([]string, 0, len(paths))
+	for _, p := range paths {
+		sel = append(sel, filepath.Base(p))
+	}
+	return sel
+}
+
+// called inside candidateTablesForCompaction with the manager read lock held
+func verifCandidates(s *SSTableManager, maxSize uint64, ratio float32, selected []string) {
+	verifEmit("compact.candidates", map[string]any{"tables": verifTablesOf(s.allSSTableReaders), "selected": verifBaseNames(selected),
+		"maxSize": maxSize, "ratio": ratio})
+}
+
+func verifSelect(db *DB, action compactionAction) {
+	sel := verifBaseNames(action.pathsToCompact)
+	verifEmit("compact.select", map[string]any{"selected": sel, "threshold": db.compactionFileThreshold,
+		"compacting": len(sel) > db.compactionFileThreshold})
+}
+
+func verifMerged(m *proto.CompactionMetadata) {
+	verifEmit("compact.merged", map[string]any{"write": m.WritePath, "replacement": m.ReplacementPath, "inputs": append([]string{}, m.SstablePaths...)})
+}
+
+// called inside reflectCompactionResult with the database lock and the manager lock held
+func verifReflect(stage string, s *SSTableManager, m *proto.CompactionMetadata) {
+	verifEmit("reflect."+stage, map[string]any{"tables": verifTablesOf(s.allSSTableReaders), "replacement": m.ReplacementPath,
+		"inputs": append([]string{}, m.SstablePaths...)})
+}
+
+func verifPhase(db *DB, phase string) {
+	db.sstableManager.managerLock.RLock()
+	tables := verifTablesOf(db.sstableManager.allSSTableReaders)
+	db.sstableManager.managerLock.RUnlock()
+	verifEmit(phase, map[string]any{"tables": tables, "gen": db.currentGeneration})
+}
+
+// ---- helpers for the harness: deterministic placement of rotation, flush and compaction cycles ----
+
+// VerifRotate rotates WAL and memstore exactly like a Put that exceeds the memstore limit does.
+func (db *DB) VerifRotate() error {
+	db.rwLock.Lock()
+	defer db.rwLock.Unlock()
+	if !db.open || db.closed {
+		return ErrNotOpenedYet
+	}
+	return db.rotateWalAndFlushMemstore()
+}
+
+// VerifFlushBarrier returns after every previously handed-off memstore has been flushed and installed: it hands an
+// empty store to the flusher over the unbuffered channel (which the flusher skips).
+func (db *DB) VerifFlushBarrier() {
+	db.rwLock.Lock()
+	defer db.rwLock.Unlock()
+	if !db.open || db.closed {
+		return
+	}
+	empty := memstore.NewMemStore()
+	db.storeFlushChannel <- memStoreFlushAction{memStore: &empty, walPath: ""}
+	db.storeFlushChannel <- memStoreFlushAction{memStore: &empty, walPath: ""}
+}
+
+// VerifCompactOnce runs exactly one cycle of the background compaction loop body.
+func (db *DB) VerifCompactOnce() (bool, error) {
+	metadata, err := executeCompaction(db)
+	if err != nil {
+		return false, err
+	}
+	if metadata == nil {
+		return false, nil
+	}
+	return true, db.sstableManager.reflectCompactionResult(metadata)
+}
+
+// VerifTables returns the live tables, oldest first.
+func (db *DB) VerifTables() []VerifTable {
+	db.sstableManager.managerLock.RLock()
+	defer db.sstableManager.managerLock.RUnlock()
+	return verifTablesOf(db.sstableManager.allSSTableReaders)
+}
